@@ -266,6 +266,7 @@ class C14(Check):
         out = [('compose', m, ch) for m in range(len(MAPS)) for ch in chunked(streams, 30 if L == 2 else 120)]
         out += [('process', m, ch) for m in range(len(MAPS)) for ch in chunked(list(seqs(range(len(ALPHA)), L + 1)), 4)]
         out.append(('special',))
+        out.append(('long',))
         out += [('sequence', m1, i) for m1 in range(len(MAPS)) for i in range(len(ALPHA))]
         return out
 
@@ -292,6 +293,15 @@ class C14(Check):
                     acc.violation(bad[0], {'kind': 'process', 'map': m, 'seq': list(seq), 'readable': [ALPHA[i][0] for i in seq]}, bad[1])
                 elif acc.want_sample() and len(seq) == 3 and 4 in seq:
                     acc.sample({'thread_map': MAPS[m], 'stream': [ALPHA[i][0] for i in seq]})
+        elif desc[0] == 'long':
+            # 300 items: a formatter that batches lines (or resolves the process column late) is invisible to 3-item streams
+            for m in range(len(MAPS)):
+                for stride in (1, 4, 7):
+                    seq = tuple((i * stride + i // 9) % len(ALPHA) for i in range(300))
+                    bad = judge_process(m, seq)
+                    acc.case(nontrivial=True, transitions=2, outcome=h64((m, stride, 'long')))
+                    if bad:
+                        acc.violation(bad[0] + ':300-item-stream', {'kind': 'process', 'map': m, 'seq': list(seq)}, bad[1])
         elif desc[0] == 'sequence':
             _, m1, first = desc
             L = 1 if self.tier == 'quick' else 2
